@@ -24,6 +24,10 @@ THEOREMS = [
     (NS + "C13_int_boundary_32_64", "full"),
     (NS + "C13_int_boundary_64", "full"),
     (NS + "C13_refuse", "full"),
+    (NS + "C13_refuse_deep", "full"),
+    (NS + "C13_accepts", "full"),
+    (NS + "C13_clientHello_roundtrip", "full"),
+    (NS + "C13_serverHello_roundtrip", "full"),
 ]
 ASSUMPTIONS = [
     "float32 rounding of struct.pack('>f') is modelled on bit patterns (roundF32) and compared with struct on every run; "
@@ -1180,10 +1184,22 @@ def run(ctx):
     ch = R.chal()
     ch.token = 2 ** 31
     ops.append("enc " + tok(R, ch))
+    # ... and their encodings decoded again (stream position included), with the keyword each side uses
+    hs_pairs = []
+    with Instr(R):
+        for m in handshake_values(R, rng):
+            hs_pairs.append((m, real_encode(R, m), {}, "k=nokw"))
+        rk = root_key(R)
+        hs_pairs.append((sh, real_encode(R, sh, server_root_key=rk), {"server_public_key": None}, "k=none"))
+        hs_pairs.append((sh, real_encode(R, sh, server_root_key=rk), {"server_public_key": rk.getPublicKey()},
+                         "k=" + rk.getPublicKey().getBytes().hex()))
+        hs_pairs.append((ch, real_encode(R, ch), {}, "k=nokw"))
+    for m, b, kw, kwtok in hs_pairs:
+        ops.append("dec %s %s" % (hx(b + b"\x00\x0f"), kwtok))
     cases.append(make_case(R, "handshake-enc", ops))
 
     # random values: encode, decode the encoding, decode concatenations
-    n = ctx.scale(250, 10000)
+    n = ctx.scale(250, 30000)
     for ci in range(n):
         ops = []
         vs = []
@@ -1221,6 +1237,28 @@ def run(ctx):
         for i in range(ctx.scale(300, 5000)):
             k = rng.choice([2, 3])
             if monitor_concat(R, ctx, [rng.choice(vals) for _ in range(k)]):
+                break
+    # handshake messages: loadb(dumpb(m)) gives the same message and stops at the end of the encoding
+    if not ctx.failures:
+        for m, b, kw, kwtok in hs_pairs:
+            ctx.count("monitor:handshake")
+            stream = BytesIO(b + b"\x00\x0f\xaa")
+            rep = {"case": ["case mon", R.reg_line, "dec %s %s" % (hx(b), kwtok)], "at": 1}
+            try:
+                back = R.S.Serializable.loadb(stream, **kw)
+            except Exception as e:
+                ctx.failure("handshake-decode-raises", "decoding an encoded %s raised %r" % (type(m).__name__, e), rep)
+                break
+            if isinstance(m, R.shello):
+                # the root key that comes back is the signing key's, not an attribute of the sent object
+                same = (type(back) is type(m) and back.server_pubkey.getBytes() == m.server_pubkey.getBytes()
+                        and back.salt == m.salt and back.token == m.token
+                        and back.server_root_pubkey.getBytes() == root_key(R).getPublicKey().getBytes())
+            else:
+                same = canon(R, back) == canon(R, m)
+            if stream.tell() != len(b) or not same:
+                ctx.failure("handshake-roundtrip", "loadb(dumpb(m)) differs or stopped at %d of %d bytes for %s"
+                            % (stream.tell(), len(b), type(m).__name__), rep)
                 break
     ctx.notes["values_monitored"] = len(values)
     ctx.notes["registry_classes"] = len(R.S.SerializableType.registry)
